@@ -1,6 +1,7 @@
 package variants
 
 import (
+	"reflect"
 	"time"
 
 	cconv "github.com/pip-services3-gox/pip-services3-commons-gox/convert"
@@ -430,7 +431,37 @@ func (c *Variant) Equals(obj *Variant) bool {
 	if value1 == nil || value2 == nil {
 		return value1 == value2
 	}
-	return c.typ == obj.typ && value1 == value2
+	if c.typ != obj.typ {
+		return false
+	}
+
+	// Arrays are compared element by element
+	// (comparing slices with == is a runtime panic)
+	if c.typ == Array {
+		array1 := c.AsArray()
+		array2 := obj.AsArray()
+		if len(array1) != len(array2) {
+			return false
+		}
+		for index := range array1 {
+			element1 := array1[index]
+			element2 := array2[index]
+			if element1 == element2 {
+				continue
+			}
+			if element1 == nil || !element1.Equals(element2) {
+				return false
+			}
+		}
+		return true
+	}
+
+	// Objects may hold values that cannot be compared with ==
+	if c.typ == Object {
+		return reflect.DeepEqual(value1, value2)
+	}
+
+	return value1 == value2
 }
 
 // Clone the variant value
